@@ -39,6 +39,7 @@ type envCase struct {
 	Host     map[string]bool `json:"host"`
 	Versions []int           `json:"versions"`
 	Legacy   bool            `json:"legacy"`
+	Ports    []int           `json:"ports,omitempty"` // MinPort, MaxPort of the client config (default 11111, 22222)
 }
 
 var envNames = map[string]string{
@@ -77,9 +78,18 @@ func runEnvCase(c envCase, tmp string) map[string]interface{} {
 		}
 	}()
 	gid := strconv.Itoa(os.Getgid())
+	minPort, maxPort := 11111, 22222
+	if len(c.Ports) == 2 {
+		minPort, maxPort = c.Ports[0], c.Ports[1]
+	}
+	// what the plugin must be told: the configured range; the documented defaults only when neither end is set
+	wantMin, wantMax := strconv.Itoa(minPort), strconv.Itoa(maxPort)
+	if minPort == 0 && maxPort == 0 {
+		wantMin, wantMax = "10000", "25000"
+	}
 	cfg := &plugin.ClientConfig{
 		HandshakeConfig: plugin.HandshakeConfig{MagicCookieKey: envNames["COOKIE"], MagicCookieValue: "CLIENT-cookie"},
-		MinPort:         11111, MaxPort: 22222,
+		MinPort:         uint(minPort), MaxPort: uint(maxPort),
 		AutoMTLS: c.Cfg.AutoMTLS, GRPCBrokerMultiplex: c.Cfg.Mux, SkipHostEnv: c.Cfg.Skip,
 		StartTimeout: 300 * time.Millisecond, Logger: hclog.NewNullLogger(),
 		UnixSocketConfig: &plugin.UnixSocketConfig{TempDir: tmp},
@@ -184,7 +194,7 @@ func runEnvCase(c envCase, tmp string) map[string]interface{} {
 			exact = false
 		}
 	}
-	valuesOK := eff[envNames["COOKIE"]] == "CLIENT-cookie" && eff["PLUGIN_MIN_PORT"] == "11111" && eff["PLUGIN_MAX_PORT"] == "22222"
+	valuesOK := eff[envNames["COOKIE"]] == "CLIENT-cookie" && eff["PLUGIN_MIN_PORT"] == wantMin && eff["PLUGIN_MAX_PORT"] == wantMax
 	if c.Cfg.AutoMTLS && !strings.HasPrefix(eff["PLUGIN_CLIENT_CERT"], "-----BEGIN CERTIFICATE") {
 		valuesOK = false
 	}
